@@ -49,6 +49,9 @@ func strs() [][]byte {
 	o = append(o, []byte(`x\"y`), []byte("\\\\"), bytes.Repeat([]byte{'x'}, 255), bytes.Repeat([]byte{'\\'}, 255), []byte("123"), []byte(`\123`))
 	// letter case is content in every character-string (CAA tags, NAPTR flags, HINFO, TXT …)
 	o = append(o, []byte("MiXeD"), []byte("UPPER"))
+	// the longest presentation forms a character-string can have: 255 octets that all print as \DDD (1020
+	// characters), and one printable octet among them
+	o = append(o, bytes.Repeat([]byte{0x80}, 255), append(bytes.Repeat([]byte{0x01}, 254), 'a'))
 	return o
 }
 
@@ -115,7 +118,7 @@ func Alphabet(s *wire.Spec, fi int) []wire.Val {
 		}
 		return o
 	case wire.Txt:
-		o := []wire.Val{{L: L("t")}, {L: L("")}, {L: L("a", "b")}, {L: L("", "")}, {L: [][]byte{bytes.Repeat([]byte{'x'}, 255)}}, {L: [][]byte{bytes.Repeat([]byte{'x'}, 255), []byte("y")}}}
+		o := []wire.Val{{L: L("t")}, {L: L("")}, {L: L("a", "b")}, {L: L("", "")}, {L: [][]byte{bytes.Repeat([]byte{'x'}, 255)}}, {L: [][]byte{bytes.Repeat([]byte{'x'}, 255), []byte("y")}}, {L: [][]byte{bytes.Repeat([]byte{0xff}, 255)}}, {L: [][]byte{[]byte("z"), bytes.Repeat([]byte{0x00}, 255)}}}
 		for _, h := range Hostile {
 			o = append(o, wire.Val{L: [][]byte{{'a', h, 'b'}}})
 		}
